@@ -189,7 +189,7 @@ fn expect_rejected(rt: &tokio::runtime::Runtime, r: &mut Report, op: &str, what:
 fn reject_cases(rt: &tokio::runtime::Runtime, r: &mut Report, op: &str, seed: u64) {
     let info = op_info(op).expect("op");
     // capture a valid request with every member present (no auth: mutations need no re-signing)
-    let cfg = LoopCfg { host: HostCfg::None, vhost: false, auth: false, hops: 1 };
+    let cfg = LoopCfg { host: HostCfg::None, vhost: false, auth: false, hops: 1, route: false };
     let mut g = gen_for(seed, Presence::Full);
     let Some(input) = gen_input(op, &mut g) else { return };
     let lr = drive(rt, &cfg, None, input);
@@ -257,6 +257,17 @@ fn reject_cases(rt: &tokio::runtime::Runtime, r: &mut Report, op: &str, seed: u6
                     m.set_header("content-length", "0");
                     expect_rejected(rt, r, op, "required-payload-empty", mi.rust, &m);
                 }
+                // a payload that is not a sequence of characters: bytes that are not UTF-8 in the first text of the
+                // document, alone and next to a comment that splits the text in two (cf. C13, here through the front door)
+                if let Some(tp) = (1..req.body.len()).find(|&i| req.body[i - 1] == b'>' && req.body[i] != b'<' && !req.body[i].is_ascii_whitespace()) {
+                    for (name, ins) in [("payload-invalid-utf8", &b"\xff"[..]), ("payload-invalid-utf8-in-split-text", &b"\xff<!--c-->"[..]), ("payload-invalid-utf8-in-split-text", &b"<?p x?>\xc3"[..])] {
+                        let mut m = req.clone();
+                        m.body.splice(tp + 1..tp + 1, ins.iter().copied());
+                        m.set_header("content-length", &m.body.len().to_string());
+                        m.headers.retain(|(k, _)| !k.eq_ignore_ascii_case("content-md5") && !k.to_ascii_lowercase().starts_with("x-amz-checksum") && !k.eq_ignore_ascii_case("x-amz-sdk-checksum-algorithm"));
+                        expect_rejected(rt, r, op, name, mi.rust, &m);
+                    }
+                }
                 // buffered body whose length differs from the declared Content-Length
                 if !req.body.is_empty() {
                     for (name, delta) in [("declared-length-too-large", 3i64), ("declared-length-too-small", -3)] {
@@ -291,10 +302,10 @@ pub fn run(ctx: &RunCtx) -> i32 {
     };
     let ops: Vec<&'static OpInfo> = OPS.iter().filter(|o| o.in_model).collect();
     let cfgs = [
-        LoopCfg { host: HostCfg::None, vhost: false, auth: false, hops: 1 },
-        LoopCfg { host: HostCfg::Single(L_DOMAIN.into()), vhost: true, auth: true, hops: 1 },
-        LoopCfg { host: HostCfg::None, vhost: false, auth: true, hops: 1 },
-        LoopCfg { host: HostCfg::None, vhost: false, auth: false, hops: 2 },
+        LoopCfg { host: HostCfg::None, vhost: false, auth: false, hops: 1, route: false },
+        LoopCfg { host: HostCfg::Single(L_DOMAIN.into()), vhost: true, auth: true, hops: 1, route: false },
+        LoopCfg { host: HostCfg::None, vhost: false, auth: true, hops: 1, route: false },
+        LoopCfg { host: HostCfg::None, vhost: false, auth: false, hops: 2, route: false },
     ];
     let n_random = ctx.tier.sz(1500, 40_000);
     let sys_reps = ctx.tier.sz(16, 80);
